@@ -471,6 +471,13 @@ func (s *verifSim) view(id ch.NodeID, c int) verifSimReplicaView {
 			idx = append(idx, i)
 		}
 		res, err := n.store.Load(ctx, LoadBatch{Items: []LoadRequest{{ChannelKey: verifSimChannelKey(c), ChannelID: verifSimChannelID(c), ProbeIndexes: idx}}})
+		if err == nil && len(res.Items) == 1 && res.Items[0].Err != nil &&
+			errors.Is(res.Items[0].Err, ch.ErrLogConflict) {
+			// the store itself reports that the identities 1..LEO of this replica
+			// do not form one exact chain: the C02 hash-chain clause is broken
+			s.fail("C02", "replica-chain-unreadable", "node %d ch %d: reading entry identities %d..%d of its own log (LEO %d) fails with %v", id, c, idx[0], idx[len(idx)-1], v.state.LEO, res.Items[0].Err)
+			return verifSimReplicaView{err: fmt.Errorf("probe load: %v", res.Items[0].Err)}
+		}
 		if err != nil || len(res.Items) != 1 || res.Items[0].Err != nil {
 			return verifSimReplicaView{err: fmt.Errorf("probe load: %v %v", err, res.Items)}
 		}
